@@ -16,6 +16,8 @@ for d in sorted(glob.glob(os.path.join(V, "seeded", "C*-agent*"))):
     first = "yes"
     if note.startswith("missed") or "first version caught it only" in note or note.startswith("detected after"):
         first = "no -> check strengthened"
+    if note.startswith("not reachable in the quick tier"):
+        first = "no -> thorough tier strengthened (scale beyond the quick tier)"
     if note.startswith("NOT judged"):
         first = "not judged: outside the property's input domain (see text)"
     rows.append("| %s | %s | %s | %s | %s |" % (name, m["change"].replace("|", "\\|"), m["needs_to_manifest"].replace("|", "\\|"), first, ", ".join(others) if mat else "n/a"))
